@@ -700,6 +700,12 @@ func init() {
 		"sameArray": func(m *Machine, st *State, fr *Frame, instr ssa.Instruction, fn *ssa.Function, args []Value) Value {
 			return m.ctx.Eq(args[0].(*Slice).Arr, args[1].(*Slice).Arr)
 		},
+		"hasByte": func(m *Machine, st *State, fr *Frame, instr ssa.Instruction, fn *ssa.Function, args []Value) Value {
+			return m.hasByteTerm(args[0].(*Str), args[1].(*Term))
+		},
+		"splitOf": func(m *Machine, st *State, fr *Frame, instr ssa.Instruction, fn *ssa.Function, args []Value) Value {
+			return m.splitValue(st, args[0].(*Str), m.strConst("/"), types.Typ[types.String])
+		},
 		"ghostTrue": func(m *Machine, st *State, fr *Frame, instr ssa.Instruction, fn *ssa.Function, args []Value) Value {
 			return m.ctx.T
 		},
@@ -749,7 +755,29 @@ func (m *Machine) quant(st *State, args []Value, universal bool) Value {
 	}
 	fv := m.closureBindings(st, f, cfn)
 	i := c.Bound("k", m.ts.Idx())
+	base := len(st.pc)
 	body := m.pureCall(st, cfn, []Value{i}, fv)[0].(*Term)
+	// representation facts learnt while evaluating the body mention the bound variable:
+	// they are re-scoped under the quantifier (and kept as quantified facts).
+	var side []*Term
+	kept := st.pc[:base:base]
+	for _, p := range st.pc[base:] {
+		if p.hasBound {
+			side = append(side, p)
+		} else {
+			kept = append(kept, p)
+		}
+	}
+	st.pc = kept
+	if len(side) > 0 {
+		a := c.And(side...)
+		st.pc = append(st.pc, c.Forall([]*Term{i}, a))
+		if universal {
+			body = c.Implies(a, body)
+		} else {
+			body = c.And(a, body)
+		}
+	}
 	rng := c.And(m.idxLe(lo, i), m.idxLt(i, hi))
 	if universal {
 		return c.Forall([]*Term{i}, c.Implies(rng, body))
